@@ -37,7 +37,8 @@ def run(env, rep):
         "R1: every narrowing integer cast in the encoder has a source interval inside the target type at the cast (a length that "
         "does not fit is refused, not truncated); R2: the set of property-name lengths the encoder can write (interval at the "
         "u16 emission) excludes the length the decoder reserves as object terminator; R3: encoder and decoder agree per value "
-        "type on marker, field widths, byte order and terminator (both extracted from the current source).  Not decided: the "
+        "type on marker, field widths, byte order and terminator (both extracted from the current source); R4: encoder and decoder keep no state between calls "
+        "(no function reachable from serialize / deserialize touches a thread-local or a writable static), so what one call returns cannot depend on an earlier call.  Not decided: the "
         "identity over the whole value space.")
     rep.assumptions = ["A-MEM for array.len() as u32", "byteorder encodes the named width and byte order"]
     spec = amf0.load_spec()
@@ -167,3 +168,8 @@ def run(env, rep):
         sa = [p for p, ms in marker_of_parser.items() if spec["markers"]["StrictArray"] in ms]
         if len(sa) == 1:
             amf0.strict_array_count(env, rep, "C04.R3", body_by_pretty(prog, sa[0]))
+
+    # ------------------------------------------------------------------ R4 no state between calls
+    from ..framework import wants
+    if wants(rep, "C04.R4"):
+        stateless(env, rep, "C04.R4", ["serialization::serialize", "deserialization::deserialize"], "the AMF0 codec")
